@@ -21,6 +21,7 @@ package c21
 
 import (
 	"fmt"
+	"strconv"
 	"strings"
 )
 
@@ -120,27 +121,136 @@ func (c *chk) varUnset(class string, x int) bool {
 	return true
 }
 
+// index is vals.Index for the values in play, from its documentation: a list
+// by a decimal integer (negative from the end), a map by key, a string by a
+// byte offset.  Slices (a..b) are not generated.
+func listIndex(n int, i string) (int, bool) {
+	k, err := strconv.Atoi(i)
+	if err != nil {
+		return 0, false
+	}
+	if k < 0 {
+		k += n
+	}
+	return k, k >= 0 && k < n
+}
+
+func index(c val, i string) (val, bool) {
+	switch c.kind {
+	case 'l':
+		k, ok := listIndex(len(c.xs), i)
+		if !ok {
+			return val{}, false
+		}
+		return c.xs[k], true
+	case 'm':
+		for j, key := range c.keys {
+			if key == i {
+				return c.vs[j], true
+			}
+		}
+	case 's': // (ASCII strings only are generated) one character
+		k, ok := listIndex(len(c.s), i)
+		if !ok {
+			return val{}, false
+		}
+		return sv(c.s[k : k+1]), true
+	}
+	return val{}, false
+}
+
+// assocIn: a = (assoc $a i₁ (assoc $a[i₁] i₂ (… v))), the nested assoc of the
+// documentation of element assignment.
+func assocIn(c val, idx []string, v val) (val, bool) {
+	inner := v
+	if len(idx) > 1 {
+		sub, ok := index(c, idx[0])
+		if !ok {
+			return val{}, false
+		}
+		inner, ok = assocIn(sub, idx[1:], v)
+		if !ok {
+			return val{}, false
+		}
+	}
+	switch c.kind {
+	case 'l':
+		k, ok := listIndex(len(c.xs), idx[0])
+		if !ok {
+			return val{}, false
+		}
+		out := lv(append([]val(nil), c.xs...)...)
+		out.xs[k] = inner
+		return out, true
+	case 'm':
+		out := val{kind: 'm', keys: append([]string(nil), c.keys...), vs: append([]val(nil), c.vs...)}
+		out.mapSet(idx[0], inner)
+		return out, true
+	case 's': // the character is replaced by a string
+		k, ok := listIndex(len(c.s), idx[0])
+		if !ok || inner.kind != 's' {
+			return val{}, false
+		}
+		return sv(c.s[:k] + inner.s + c.s[k+1:]), true
+	}
+	return val{}, false
+}
+
+// pathOk: all indices but the last can be looked up.
+func pathOk(c val, idx []string) bool {
+	for _, i := range idx[:len(idx)-1] {
+		sub, ok := index(c, i)
+		if !ok {
+			return false
+		}
+		c = sub
+	}
+	return true
+}
+
+func (c *chk) content(x int) val {
+	if !c.store[x].set {
+		return sv("") // an unset U / E variable reads as the empty string
+	}
+	return c.store[x].v
+}
+
 // doAssign follows one `lhs… = rhs…`; successful assignments push what must be
-// undone onto *undo (nil for a plain set).
+// undone onto *undo (nil for a plain set) — one entry per lvalue.
 func (c *chk) doAssign(g group, undo *[]item, what string) string {
-	if len(g.lvs) != len(g.vals) {
+	// a bad index chain in any lvalue is reported before anything is assigned
+	for _, l := range g.lvs {
+		if l.elem() && !pathOk(c.content(l.x), l.idx) {
+			return "elemerr"
+		}
+	}
+	vs, fits := g.restValues()
+	if !fits {
 		return "arity"
+	}
+	if g.rest >= 0 {
+		c.feat["rest lvalue "+what]++
 	}
 	for i, l := range g.lvs {
 		it := item{kind: 'r', x: l.x, v: c.store[l.x].v}
 		if !c.store[l.x].set {
 			it.kind = 'u'
 		}
-		nv := g.vals[i]
-		if l.elem {
+		nv := vs[i]
+		if l.elem() {
 			// element assignment works on the variable's value at the time of this Set
-			b := c.store[l.x]
-			if !b.set || !b.v.list || l.i >= len(b.v.xs) {
+			var ok bool
+			nv, ok = assocIn(c.content(l.x), l.idx, vs[i])
+			if !ok {
 				return "elemerr"
 			}
-			nv = val{list: true, xs: append([]int(nil), b.v.xs...)}
-			nv.xs[l.i] = g.vals[i].n
 			c.feat["elem "+what]++
+			if len(l.idx) > 1 {
+				c.feat["multi-level elem "+what]++
+			}
+			if c.content(l.x).kind == 'm' {
+				c.feat["map elem "+what]++
+			}
 		}
 		if !c.varSet("assignment", l.x, nv) {
 			return fmt.Sprintf("setfail:%d", l.x)
@@ -274,6 +384,24 @@ func (c *chk) stmts(g int, body []*stmt, items *[]item) string {
 					break loop
 				}
 			}
+		case 'I':
+			if s.n <= 2 {
+				c.feat["if body"]++
+				out = c.call("", s.k, s.body, false)
+			}
+		case 'H':
+		wloop:
+			for i := 0; i < s.n; i++ {
+				c.feat["while body"]++
+				switch o := c.call("loop-iteration", s.k, s.body, false); o {
+				case "ok", "continue":
+				case "break":
+					break wloop
+				default:
+					out = o
+					break wloop
+				}
+			}
 		case 'T':
 			o := c.call("", s.k, s.body, false)
 			want := fmt.Sprintf("C%d.%d:%s", g, s.k, o)
@@ -311,6 +439,9 @@ func oracle(f []string, out string, feat map[string]int) (class, detail string) 
 			return "bad-op-accepted", out
 		}
 		return "", ""
+	}
+	if f[0] == "acc" {
+		return "", "" // the op compares the two acceptors; nothing to check on the real code
 	}
 	if out == "PANIC" || out == "TIMEOUT" {
 		return "crash", out
